@@ -277,6 +277,131 @@ Qed.
 (* ------------------------------------------------------------------------------------------------
    Further steps towards write_read_iso (statements fixed; same rules). *)
 
+(* ---------- stream objects ---------- *)
+Lemma skipn_add : forall (A : Type) (a b : nat) (l : list A), skipn (a + b) l = skipn b (skipn a l).
+Proof.
+  induction a as [|a IH]; intros b l; [reflexivity|].
+  destruct l as [|x l]; [cbn [Nat.add skipn]; rewrite skipn_nil; reflexivity|].
+  cbn [Nat.add skipn]. apply IH.
+Qed.
+
+Lemma children_graph_of_stream : forall d id i data, find_obj (d_objects d) id = Some i -> i_stream i = Some data ->
+  children (graph_of d) id = refs_of (d_objects d) (drop_length (i_val i)).
+Proof.
+  intros d id i data Hf Hs. unfold graph_of.
+  destruct (children_map (fun kv => refs_of (d_objects d)
+              (match i_stream (snd kv) with Some _ => drop_length (i_val (snd kv)) | None => i_val (snd kv) end))
+              (d_objects d) id i Hf) as [H | [k [_ [_ H]]]];
+    rewrite H; cbn [snd]; rewrite Hs; reflexivity.
+Qed.
+
+Definition len_entry (len : N) : list N * obj := (k_Length, OInt (Z.of_N len)).
+
+Lemma dec_of_Z_of_N : forall n, dec_of_Z (Z.of_N n) = dec_of_N n.
+Proof. intros [|p]; reflexivity. Qed.
+
+(* the stream dictionary is the printed form of the dictionary without /Length, with /Length len appended *)
+Lemma unparse_stream_dict_eq : forall us un objs ren dd len,
+  unparse_stream_dict us un objs ren (ODict dd) len
+  = unparse us un objs ren (ODict (filter (fun kv => negb (beqb (fst kv) k_Length)) dd ++ [len_entry len])).
+Proof.
+  intros us un objs ren dd len. unfold unparse_stream_dict. cbn [drop_length].
+  set (d' := filter (fun kv => negb (beqb (fst kv) k_Length)) dd).
+  set (g := fun kv : list N * obj => if is_null_val objs (snd kv) then [] else sp ++ un (fst kv) ++ sp ++ unparse us un objs ren (snd kv)).
+  change (unparse us un objs ren (ODict (d' ++ [len_entry len])))
+    with ([60; 60] ++ flat_map g (d' ++ [len_entry len]) ++ [32; 62; 62]).
+  rewrite flat_map_app. cbn [flat_map]. unfold g at 3. unfold len_entry. cbn [snd fst is_null_val unparse].
+  rewrite dec_of_Z_of_N, app_nil_r, <- !app_assoc. reflexivity.
+Qed.
+
+Lemma refs_of_dict_app : forall objs a b,
+  refs_of objs (ODict (a ++ b)) = refs_of objs (ODict a) ++ refs_of objs (ODict b).
+Proof. intros objs a b. cbn [refs_of]. apply flat_map_app. Qed.
+
+Lemma pdict_app : forall objs ren a b, pdict objs ren (a ++ b) = pdict objs ren a ++ pdict objs ren b.
+Proof.
+  intros objs ren a b. induction a as [|kv t IH]; [reflexivity|].
+  cbn [app pdict]. destruct (is_null_val objs (snd kv)); rewrite IH; reflexivity.
+Qed.
+
+Lemma dict_get_length : forall objs ren d' len,
+  Forall (fun kv : list N * obj => negb (beqb (fst kv) k_Length) = true) d' ->
+  dict_get (pdict objs ren (d' ++ [len_entry len])) n_Length = Some (SpInt (Z.of_N len)).
+Proof.
+  intros objs ren d' len Hd. induction d' as [|kv t IH].
+  - reflexivity.
+  - inversion Hd as [|? ? H1 H2]; subst. cbn [app pdict].
+    destruct (is_null_val objs (snd kv)); [apply IH; exact H2|].
+    cbn [dict_get]. 
+    replace (beq n_Length (fst kv)) with false; [apply IH; exact H2|].
+    symmetry. apply negb_true_iff in H1. unfold beq, beqb in *.
+    destruct (list_eqb N.eqb n_Length (fst kv)) eqn:E; [|reflexivity].
+    apply list_eqb_N_eq in E. rewrite <- E in H1. discriminate H1.
+Qed.
+
+Lemma filter_Forall : forall (A : Type) (f : A -> bool) l, Forall (fun x => f x = true) (filter f l).
+Proof. intros A f l. apply Forall_forall. intros x Hx. apply filter_In in Hx. tauto. Qed.
+
+Lemma next_tok_stream : forall X,
+  next_tok (10 :: 115 :: 116 :: 114 :: 101 :: 97 :: 109 :: 10 :: X) = Some (StKw k_stream, 10 :: X).
+Proof. reflexivity. Qed.
+
+Definition s_stream_kw : list N := [10; 115; 116; 114; 101; 97; 109; 10].
+Definition s_endstream_kw : list N := [101; 110; 100; 115; 116; 114; 101; 97; 109].
+
+Lemma parse_indirect_emitted_stream : forall fuel total file off k objs ren o' dct data tail,
+  at_off file off = obj_header k ++ unparse wm_unparse_string wm_unparse_name objs ren o'
+                    ++ s_stream_kw ++ data ++ s_endstream_kw ++ s_endobj ++ tail ->
+  wf_wobj o' -> (forall id, 0 < ren id) -> (forall z, o' <> OInt z) ->
+  (length (unparse wm_unparse_string wm_unparse_name objs ren o') < fuel)%nat ->
+  to_pobj objs ren o' = SpDict dct ->
+  dict_get dct n_Length = Some (SpInt (Z.of_N (N.of_nat (length data)))) ->
+  parse_indirect fuel total file off (fun _ => None)
+  = inl (Some {| so_num := k; so_gen := 0; so_where := XInUse off 0;
+                 so_val := SpDict dct;
+                 so_stream := Some (offset_of total (data ++ s_endstream_kw ++ s_endobj ++ tail), N.of_nat (length data));
+                 so_end := offset_of total tail |}).
+Proof.
+  intros fuel total file off k objs ren o' dct data tail Hat Hwf Hren Hni Hfuel Hv Hlen.
+  set (U := unparse wm_unparse_string wm_unparse_name objs ren o') in *.
+  set (D := data ++ s_endstream_kw ++ s_endobj ++ tail).
+  set (E := 10 :: 115 :: 116 :: 114 :: 101 :: 97 :: 109 :: 10 :: D).
+  assert (Hs : at_off file off = dec_of_N k ++ 32 :: 48 :: 32 :: 111 :: 98 :: 106 :: 10 :: U ++ E).
+  { rewrite Hat. unfold obj_header, s_stream_kw. rewrite <- app_assoc. reflexivity. }
+  assert (Hnt : next_tok (at_off file off) = Some (StInt (Z.of_N k), 32 :: 48 :: 32 :: 111 :: 98 :: 106 :: 10 :: U ++ E)).
+  { rewrite Hs. apply next_tok_dec_of_N. left. reflexivity. }
+  destruct (dec_of_N_head k) as [c [t [Hk Hc]]].
+  assert (Hhd : at_off file off = c :: t ++ 32 :: 48 :: 32 :: 111 :: 98 :: 106 :: 10 :: U ++ E).
+  { rewrite Hs, Hk. reflexivity. }
+  unfold parse_indirect. cbv zeta.
+  rewrite Hhd at 1. cbv iota beta. rewrite Hc. cbn [negb].
+  rewrite Hnt, next_tok_sp0, next_tok_obj.
+  change (negb (beq k_obj k_obj)) with false. cbv iota.
+  rewrite parse_obj_nl. unfold U.
+  rewrite (unparse_parses_wm_lemma objs ren o' E fuel Hwf Hren).
+  - unfold E at 1. rewrite next_tok_stream.
+    change (beq k_stream k_endobj) with false. change (beq k_stream k_stream) with true. cbv iota.
+    rewrite Hv. cbv iota. rewrite Hlen.
+    replace (0 <=? Z.of_N (N.of_nat (length data)))%Z with true by (symmetry; apply Z.leb_le; lia).
+    cbv iota. rewrite N2Z.id, Nat2N.id.
+    replace (N.of_nat (length D) <? N.of_nat (length data)) with false
+      by (symmetry; apply N.ltb_ge; unfold D; rewrite app_length; lia).
+    cbv iota.
+    assert (Hsk : skipn (length data) D = s_endstream_kw ++ s_endobj ++ tail).
+    { unfold D. rewrite skipn_app, skipn_all, Nat.sub_diag. reflexivity. }
+    rewrite Hsk.
+    change (eol (s_endstream_kw ++ s_endobj ++ tail)) with (@None (list N)). cbv iota.
+    change (expect k_endstream (s_endstream_kw ++ s_endobj ++ tail)) with (Some (s_endobj ++ tail)). cbv iota.
+    change (s_endobj ++ tail) with (10 :: 101 :: 110 :: 100 :: 111 :: 98 :: 106 :: 10 :: tail).
+    rewrite next_tok_endobj.
+    change (beq k_endobj k_endobj) with true. cbv iota.
+    change (eol (10 :: tail)) with (Some tail). cbv iota.
+    rewrite N2Z.id. reflexivity.
+  - left. reflexivity.
+  - intros z Hz. exfalso. exact (Hni z Hz).
+  - exact Hfuel.
+Qed.
+
 (* stream objects: the strict parser finds the dictionary, the data at the recorded position with the
    written /Length, and endstream/endobj exactly where the model put them *)
 Lemma emitted_stream_parses_lemma : forall d id i data fuel,
@@ -292,18 +417,107 @@ Lemma emitted_stream_parses_lemma : forall d id i data fuel,
                    so_val := v; so_stream := Some (doff, N.of_nat (length data)); so_end := e |})
     /\ firstn (length data) (skipn (N.to_nat doff) out) = data
     /\ off < doff /\ doff + N.of_nat (length data) < e.
-Proof. Abort.
+Proof.
+  intros d id i data fuel Hc Hwf Hin Hf Hs [dd Hdd] out Hfuel.
+  destruct (write_doc_shape wm_unparse_string wm_unparse_name d) as [tl Hshape].
+  destruct (offs_of_at wm_unparse_string wm_unparse_name (d_objects d) (doc_ren d)
+              (written (graph_of d) (roots_of d)) (N.of_nat (length (header (d_version d))))
+              (header (d_version d)) tl id (Nat2N.id _) Hin) as [off [tail [Hoff Hskip]]].
+  rewrite <- Hshape in Hskip. fold out in Hskip.
+  set (objs := d_objects d) in *.
+  set (len := N.of_nat (length data)).
+  set (d' := filter (fun kv : list N * obj => negb (beqb (fst kv) k_Length)) dd).
+  set (o0 := ODict (d' ++ [len_entry len])).
+  set (ren' := fun x => if doc_ren d x =? 0 then 1 else doc_ren d x).
+  assert (Hrefs : forall x, In x (refs_of objs o0) -> In x (refs_of objs (drop_length (i_val i)))).
+  { intros x Hx. unfold o0 in Hx. rewrite refs_of_dict_app in Hx. apply in_app_or in Hx.
+    destruct Hx as [Hx|Hx]; [rewrite Hdd; exact Hx | destruct Hx]. }
+  assert (Hext : forall x, In x (refs_of objs o0) -> doc_ren d x = ren' x).
+  { intros x Hx. apply Hrefs in Hx.
+    assert (Hp : 0 < doc_ren d x).
+    { apply written_ren_pos; [exact Hc|].
+      destruct (queue_complete_lemma _ _ Hc) as [_ Hq]. apply Hq.
+      apply (reach_step _ _ id); [apply Hq; exact Hin|].
+      rewrite (children_graph_of_stream d id i data Hf Hs). exact Hx. }
+    unfold ren'. destruct (doc_ren d x =? 0) eqn:E; [apply N.eqb_eq in E; lia | reflexivity]. }
+  destruct (ren_ext wm_unparse_string wm_unparse_name objs (doc_ren d) ren' o0 Hext) as [HU _].
+  set (Hd := obj_header (doc_ren d id) ++ unparse wm_unparse_string wm_unparse_name objs ren' o0 ++ s_stream_kw).
+  set (D := data ++ s_endstream_kw ++ s_endobj ++ tail).
+  assert (Hchunk : chunk_of wm_unparse_string wm_unparse_name objs (doc_ren d) id ++ tail = Hd ++ D).
+  { unfold chunk_of. rewrite Hf. unfold emit_object. rewrite Hs, Hdd, unparse_stream_dict_eq.
+    fold len d' o0. rewrite HU. unfold Hd, D, s_stream_kw, s_endstream_kw. rewrite <- !app_assoc. reflexivity. }
+  rewrite Hchunk in Hskip.
+  assert (Hlen : (length out - N.to_nat off = length Hd + length D)%nat).
+  { rewrite <- skipn_length, Hskip, app_length. reflexivity. }
+  assert (HlenHd : (0 < length Hd)%nat).
+  { unfold Hd, obj_header. rewrite !app_length. cbn [length]. lia. }
+  assert (HlenD : length D = (length data + 17 + length tail)%nat).
+  { unfold D. rewrite !app_length. unfold s_endstream_kw, s_endobj. cbn [length]. lia. }
+  assert (Hwf0 : wf_wobj o0).
+  { apply wf_dict. apply Forall_app. split.
+    - destruct (find_obj_in _ _ _ Hf) as [k Hk]. unfold wf_doc_objs in Hwf.
+      rewrite Forall_forall in Hwf. pose proof (Hwf (k, i) Hk) as Hw. cbn [snd] in Hw.
+      rewrite Hdd in Hw. apply wf_dict in Hw. rewrite Forall_forall in *.
+      intros kv Hkv. apply Hw. unfold d' in Hkv. apply filter_In in Hkv. tauto.
+    - constructor; [|constructor]. split; [|exact I]. split.
+      + cbn. intros H. repeat (destruct H as [H|H]; [discriminate H|]). exact H.
+      + repeat constructor. }
+  exists off, (offset_of (N.of_nat (length out)) tail), (offset_of (N.of_nat (length out)) D),
+         (SpDict (pdict objs ren' (d' ++ [len_entry len]))).
+  split; [rewrite body_offsets_eq; exact Hoff|].
+  split; [|split].
+  - apply (parse_indirect_emitted_stream fuel (N.of_nat (length out)) out off (doc_ren d id) objs ren' o0).
+    + unfold at_off. rewrite Hskip. unfold Hd, D. rewrite <- !app_assoc. reflexivity.
+    + exact Hwf0.
+    + intros x. unfold ren'. destruct (doc_ren d x =? 0) eqn:E; [lia | apply N.eqb_neq in E; lia].
+    + intros z Hz. discriminate Hz.
+    + unfold Hd in Hlen. rewrite !app_length in Hlen. lia.
+    + reflexivity.
+    + apply dict_get_length. unfold d'. apply filter_Forall.
+  - assert (Hdoff : N.to_nat (offset_of (N.of_nat (length out)) D) = (N.to_nat off + length Hd)%nat).
+    { unfold offset_of. lia. }
+    rewrite Hdoff, skipn_add, Hskip, skipn_app, skipn_all, Nat.sub_diag. cbn [skipn app].
+    unfold D. rewrite firstn_app, firstn_all, Nat.sub_diag. cbn [firstn]. apply app_nil_r.
+  - unfold offset_of. lia.
+Qed.
 
 (* the header of the model's output is a strict header *)
 Lemma model_header_parses_lemma : forall d a b,
   d_version d = [a; 46; b] -> is_digit a = true -> is_digit b = true ->
   exists rest, parse_header (write_doc wm_unparse_string wm_unparse_name d) = Some ([a; 46; b], rest)
                /\ length rest = (length (write_doc wm_unparse_string wm_unparse_name d) - length (header (d_version d)))%nat.
-Proof. Abort.
+Proof.
+  intros d a b Hv Ha Hb.
+  destruct (write_doc_shape wm_unparse_string wm_unparse_name d) as [tl Hshape].
+  rewrite Hshape. set (X := concat _ ++ tl). rewrite Hv. unfold header. cbn [app].
+  exists X. split.
+  - unfold parse_header. cbn [expect]. 
+    change (37 =? 37) with true. change (80 =? 80) with true. change (68 =? 68) with true.
+    change (70 =? 70) with true. change (45 =? 45) with true. cbv iota.
+    rewrite Ha, Hb. reflexivity.
+  - cbn [length]. lia.
+Qed.
+
+Lemma model_xref_entries_gen : forall offs s acc rest, Forall (fun ko : N * N => snd ko < 10 ^ 10) offs ->
+  xref_entries (length offs) (N.of_nat s) (flat_map (fun ko => xref_line (snd ko)) offs ++ rest) acc
+  = Some (rev (map (fun p : N * (N * N) => (fst p, XInUse (snd (snd p)) 0))
+                   (combine (map N.of_nat (seq s (length offs))) offs)) ++ acc, rest).
+Proof.
+  induction offs as [|ko t IH]; intros s acc rest Hb.
+  - reflexivity.
+  - inversion Hb as [|? ? H1 H2]; subst.
+    cbn [length flat_map xref_entries]. rewrite <- app_assoc.
+    destruct (xref_line_read_lemma (snd ko) (flat_map (fun ko => xref_line (snd ko)) t ++ rest) H1) as [_ Hx].
+    rewrite Hx. replace (N.of_nat s + 1) with (N.of_nat (S s)) by lia.
+    rewrite IH by exact H2. cbn [seq map combine rev fst snd]. rewrite <- app_assoc. reflexivity.
+Qed.
 
 (* the classic cross-reference table the model writes is read by the strict reader as: object 0 free,
    and for every written object an in-use entry with generation 0 pointing exactly at its recorded offset *)
 Lemma model_xref_entries_lemma : forall offs rest, Forall (fun ko => snd ko < 10 ^ 10) offs ->
   xref_entries (length offs) 1 (flat_map (fun ko => xref_line (snd ko)) offs ++ rest) []
   = Some (rev (map (fun p : N * (N * N) => (fst p, XInUse (snd (snd p)) 0)) (combine (map N.of_nat (seq 1 (length offs))) offs)), rest).
-Proof. Abort.
+Proof.
+  intros offs rest Hb. pose proof (model_xref_entries_gen offs 1 [] rest Hb) as H.
+  rewrite app_nil_r in H. exact H.
+Qed.
